@@ -760,11 +760,13 @@ where
         };
 
         //TODO: this should be checking against the reference picture to see if we need RPRP
+        //An INTRA picture has no reference picture to resample, so it may change the format freely.
         let reference_picture_resampling = if options
             .contains(PictureOption::REFERENCE_PICTURE_RESAMPLING)
-            || previous_picture
-                .map(|p| matches!((&p.format, &format), (Some(old), Some(new)) if old != new))
-                .unwrap_or(false)
+            || (!matches!(picture_type, PictureTypeCode::IFrame)
+                && previous_picture
+                    .map(|p| matches!((&p.format, &format), (Some(old), Some(new)) if old != new))
+                    .unwrap_or(false))
         {
             decode_rprp(reader)?
         } else {
